@@ -13,6 +13,7 @@ from elementpath.aliases import XPathParserType
 from elementpath.helpers import LazyPattern
 from .any_types import AnyAtomicType
 from .untyped import UntypedAtomic
+from .string import NAME_START_CHARS, NAME_CHARS
 
 __all__ = ['AbstractQName', 'QName', 'Notation']
 
@@ -24,8 +25,9 @@ class AbstractQName(AnyAtomicType):
     XPath compliant QName, bound with a prefix and a namespace.
     """
     pattern = LazyPattern(
-        r'^(?:(?P<prefix>[^\d\W][\w\-.\u00B7\u0300-\u036F\u0387\u06DD\u06DE\u203F\u2040]*):)?'
-        r'(?P<local>[^\d\W][\w\-.\u00B7\u0300-\u036F\u0387\u06DD\u06DE\u203F\u2040]*)$',
+        r'^(?:(?P<prefix>[%s][%s]*):)?(?P<local>[%s][%s]*)$' % (
+            NAME_START_CHARS, NAME_CHARS, NAME_START_CHARS, NAME_CHARS
+        )
     )
 
     @classmethod
